@@ -36,7 +36,10 @@ Open Scope string_scope.
 Open Scope list_scope.
 Definition cfgE := cfg_of engine_facts core_df core_group gen_cfg.
 Definition nmE := nm base_facts engine_facts.
-Definition check (p : engine * ecase) : string := echeck (cfgE (fst p)) (deco_of decorator_table) (nmE (fst p)) (snd p).
+(* verdicts are computed with the engine's cfg; when an engine has none (it overrides a core method -- reported separately as a
+   broken tie) the base cfg is used so that the search still finds a concrete failing input *)
+Definition check (p : engine * ecase) : string :=
+  echeck (match cfgE (fst p) with Some c => Some c | None => Some gen_cfg end) (deco_of decorator_table) (nmE (fst p)) (snd p).
 """
 HEADER_FACTS = """From SF Require Import C12.EngineCheck.
 From Gen Require Import C01Facts C12Facts.
@@ -49,6 +52,8 @@ Definition session_line (E : engine) : string :=
                      exec_default base_facts engine_facts E;
                      String.concat "" (map (fun X => b2 (flag base_facts engine_facts E X)) all_engines);
                      nm base_facts engine_facts E "max(a)"].
+Definition cfg_line (E : engine) : string :=
+  match cfg_of engine_facts core_df core_group gen_cfg E with Some _ => "1" | None => "0" end.
 Definition count_line (p : engine * string) : string :=
   match run_act plumbing_facts (fst p) aval aeval 8 (snd p) with Some l => nat_s (List.length l) | None => "?" end.
 Definition exports_line (E : engine) : string := String.concat "," (exports func_facts E).
@@ -448,6 +453,10 @@ def check_facts(ctx, results, info, fn_names):
         real = ";".join([s["input"], s["output"], s["execution"], flags, s["sanitize"]])
         if real != line:
             ctx.broken("T3:session-facts", f"{e}: live session class says {real}, generated facts say {line}")
+    cl = ctx.cases("c12c", HEADER_FACTS, [CTOR[e] for e in engs], result_ty="str", fn="cfg_line")
+    for e, line in zip(engs, cl):
+        if line == "0":
+            ctx.broken("T3:engine-has-no-cfg:" + e, f"{e}: cfg_of is None (the engine package overrides a core method)")
     # statement counts per action
     acts = ["collect", "count", "head", "first", "isEmpty", "show", "explain", "createOrReplaceTempView", "saveAsTable"]
     pairs = [(e, a) for e in engs for a in acts]
